@@ -95,6 +95,28 @@ static void viol(const char *prop, const cls_t &c, const char *what, const char 
     vf_violation(prop, key, "\"class\":\"%s\",\"keying\":\"%s\",%s", c.name, kp, ctx);
 }
 
+template <class T> static T *build_keyed(int kp, const cls_t &c, const uint8_t *key, const uint8_t *other, bool *ok)
+{
+    uint8_t saved[80];
+    T *o;
+    *ok = true;
+    switch (kp) {
+    case KP_DEFAULT: o = new T(); break;
+    case KP_CTOR: o = maker<T>::ctor_key(key, c.klen); break;
+    case KP_SETKEY: o = new T(); *ok = o->set_key(key, c.klen); break;
+    case KP_SETKEY_ZERO_PTR: o = maker<T>::ctor_key(other, c.klen); *ok = o->set_key(key, 0); break;
+    case KP_SETKEY_ZERO_NULL: o = maker<T>::ctor_key(other, c.klen); *ok = o->set_key(0, 0); break;
+    case KP_REKEY: o = maker<T>::ctor_key(other, c.klen); *ok = o->set_key(key, c.klen); break;
+    case KP_SAVED_SETKEY: {
+        T *src = maker<T>::ctor_key(key, c.klen); save_if_isap(src, saved); delete src;
+        o = new T(); *ok = o->set_key(saved, 80); break; }
+    default: {
+        T *src = new T(); src->set_key(key, c.klen); save_if_isap(src, saved); delete src;
+        o = maker<T>::ctor_key(saved, 80); break; }
+    }
+    return o;
+}
+
 template <class T> static void session(uint64_t idx)
 {
     const cls_t &c = traits<T>::info();
@@ -111,20 +133,8 @@ template <class T> static void session(uint64_t idx)
     if (c.kind == KIND_MASKED) tape_set((int)rng_below(R, TAPE_NMODES), rng_u64(R));
     vf_progress("case=%llu cpp %s keying=%s ops=%u", (unsigned long long)idx, c.name, kp_name[kp], nops);
     memcpy(eff, key, 20);
-    switch (kp) {
-    case KP_DEFAULT: o = new T(); memset(eff, 0, 20); break;
-    case KP_CTOR: o = maker<T>::ctor_key(key, c.klen); break;
-    case KP_SETKEY: o = new T(); ok = o->set_key(key, c.klen); break;
-    case KP_SETKEY_ZERO_PTR: o = maker<T>::ctor_key(other, c.klen); ok = o->set_key(key, 0); memset(eff, 0, 20); break;
-    case KP_SETKEY_ZERO_NULL: o = maker<T>::ctor_key(other, c.klen); ok = o->set_key(0, 0); memset(eff, 0, 20); break;
-    case KP_REKEY: o = maker<T>::ctor_key(other, c.klen); ok = o->set_key(key, c.klen); break;
-    case KP_SAVED_SETKEY: {
-        T *src = maker<T>::ctor_key(key, c.klen); save_if_isap(src, saved); delete src;
-        o = new T(); ok = o->set_key(saved, 80); break; }
-    default: {
-        T *src = new T(); src->set_key(key, c.klen); save_if_isap(src, saved); delete src;
-        o = maker<T>::ctor_key(saved, 80); break; }
-    }
+    o = build_keyed<T>(kp, c, key, other, &ok);
+    if (kp == KP_DEFAULT || kp == KP_SETKEY_ZERO_PTR || kp == KP_SETKEY_ZERO_NULL) memset(eff, 0, 20);
     if (!ok) viol("C17", c, "set_key-returned-false", kp_name[kp], "\"klen\":%u", c.klen);
     if (o->key_size() != c.klen || o->tag_size() != 16 || o->nonce_size() != 16)
         viol("C17", c, "sizes", kp_name[kp], "\"key_size\":%zu,\"tag_size\":%zu,\"nonce_size\":%zu", o->key_size(), o->tag_size(), o->nonce_size());
@@ -133,8 +143,9 @@ template <class T> static void session(uint64_t idx)
 
     /* nonce: set_nonce(len 0..40), set_counter, or the constructor's all-zero nonce */
     memset(n0, 0, 16);
+    bool nonce_explicit = true;
     switch (rng_below(R, 4)) {
-    case 0: break;
+    case 0: nonce_explicit = false; break;
     case 1: { uint64_t ctr = rng_below(R, 3) ? rng_u64(R) : ~(uint64_t)0 - rng_below(R, 4);
               o->set_counter(ctr); for (int i = 0; i < 8; ++i) n0[8 + i] = (uint8_t)(ctr >> (56 - 8 * i));
               vf_distinct("cpp|%s|set_counter", c.name); break; }
@@ -160,6 +171,17 @@ template <class T> static void session(uint64_t idx)
         ref_enc(c, exp, m, mlen, ad, adlen, ni, eff);
         c.enc(expc, &cl, m, mlen, ad, adlen, ni, eff);
         snprintf(ctx, sizeof(ctx), "\"op\":%u,\"mode\":%d,\"byte_array\":%d,\"adlen\":%zu,\"mlen\":%zu,\"n0\":\"%s\",\"advance\":%u,\"key\":\"%s\"", op, mode, use_ba, adlen, mlen, vf_h(n0, 16), advance, vf_h(key, c.klen));
+        /* is the keying path or the nonce setter at fault?  the same keying path with the constructor's all-zero nonce decides */
+        auto setter_at_fault = [&]() -> bool {
+            bool ok2; T *o2 = build_keyed<T>(kp, c, key, other, &ok2);
+            uint8_t zn[16] = {0}; size_t l2 = 0;
+            uint8_t *cc = (uint8_t *)malloc(mlen + 16), *ce = (uint8_t *)malloc(mlen + 16);
+            o2->encrypt(cc, m, mlen, ad, adlen);
+            c.enc(ce, &l2, m, mlen, ad, adlen, zn, eff);
+            bool same = !memcmp(cc, ce, mlen + 16);
+            free(cc); free(ce); delete o2;
+            return same;          /* key path is fine, so set_nonce / set_counter stored a wrong nonce */
+        };
         if (rng_below(R, 8) == 0) randomize_if_masked(o);
         if (mode == 0) {
             std::vector<unsigned char> got;
@@ -190,6 +212,7 @@ template <class T> static void session(uint64_t idx)
                         if (!memcmp(t, got.data(), mlen + 16)) nonce_issue = true;
                     }
                     free(t);
+                    if (!nonce_issue && advance == 0 && nonce_explicit && setter_at_fault()) nonce_issue = true;
                     viol(nonce_issue || (advance > 0 && key_ok) ? "C14" : "C17", c, nonce_issue ? "wrong-nonce" : "encrypt-differs-from-C", kp_name[kp], "\"got\":\"%s\",\"exp\":\"%s\",%s", vf_h(got.data(), mlen + 16), vf_h(expc, mlen + 16), ctx);
                     if (advance == 0 && !nonce_issue && memcmp(expc, exp, mlen + 16) == 0) viol(c.refprop, c, "encrypt-differs-from-spec", kp_name[kp], "%s", ctx);
                 }
@@ -204,7 +227,7 @@ template <class T> static void session(uint64_t idx)
                 bool r = (adlen == 0 && rng_below(R, 2)) ? o->decrypt(bm, bc) : o->decrypt(bm, bc, bad);
                 vf_out_int(r);
                 if (r && mode == 1) key_ok = true;
-                if (r != (mode == 1)) viol(mode == 1 ? (advance > 0 && key_ok ? "C14" : "C17") : "C02", c, mode == 1 ? "valid-rejected" : "forgery-accepted", kp_name[kp], "%s", ctx);
+                if (r != (mode == 1)) viol(mode == 1 ? ((advance > 0 && key_ok) || (advance == 0 && nonce_explicit && setter_at_fault()) ? "C14" : "C17") : "C02", c, mode == 1 ? "valid-rejected" : "forgery-accepted", kp_name[kp], "%s", ctx);
                 if (mode == 1 && r && (bm.size() != mlen || (mlen && memcmp(bm.data(), m, mlen)))) viol("C17", c, "decrypt-plaintext", kp_name[kp], "%s", ctx);
                 if (mode == 2 && !r && !bm.empty()) viol("C17", c, "byte_array-not-cleared-on-failure", kp_name[kp], "\"size\":%zu,%s", bm.size(), ctx);
             } else {
@@ -212,7 +235,7 @@ template <class T> static void session(uint64_t idx)
                 int r = (adlen == 0 && rng_below(R, 2)) ? o->decrypt(mb, cin, mlen + 16) : o->decrypt(mb, cin, mlen + 16, ad, adlen);
                 vf_out_int(r);
                 if (mode == 1 && r == (int)mlen) key_ok = true;
-                if (mode == 1 && r != (int)mlen) viol(advance > 0 && key_ok ? "C14" : "C17", c, "valid-rejected", kp_name[kp], "\"ret\":%d,%s", r, ctx);
+                if (mode == 1 && r != (int)mlen) viol((advance > 0 && key_ok) || (advance == 0 && nonce_explicit && setter_at_fault()) ? "C14" : "C17", c, "valid-rejected", kp_name[kp], "\"ret\":%d,%s", r, ctx);
                 if (mode == 1 && r >= 0 && mlen && memcmp(mb, m, mlen)) viol("C17", c, "decrypt-plaintext", kp_name[kp], "%s", ctx);
                 if (mode == 2 && r >= 0) viol("C02", c, "forgery-accepted", kp_name[kp], "\"ret\":%d,%s", r, ctx);
                 gfree(mb);
